@@ -5,7 +5,7 @@
    (findings/C16.json); the repaired code is [tune_fixed]
    (C16_tune_fills_validation_parameters). *)
 From Coq Require Import ZArith List Bool.
-From VV Require Import Valid.ValidDefs.
+From VV Require Import Valid.ValidDefs Valid.ValidProofs.
 Import ListNotations.
 Local Open Scope Z_scope.
 
@@ -39,7 +39,8 @@ Print Assumptions C16_holdout_share_refuted.
 Theorem C16_shake_reports_refuted :
   forall gen, 0 <= gen < sentinel -> shake_due (pinned_cfg VsDss) gen = false.
 Proof.
-  intros gen H. unfold shake_due. cbn. destruct (gen =? 0) eqn:E; [reflexivity|]. cbn.
+  intros gen H. rewrite shake_due_unfold. change (gap (pinned_cfg VsDss)) with sentinel.
+  destruct (gen =? 0) eqn:E; [reflexivity|]. cbn [negb andb].
   apply Z.eqb_neq. rewrite Z.mod_small by exact H. apply Z.eqb_neq in E. exact E.
 Qed.
 Print Assumptions C16_shake_reports_refuted.
